@@ -20,3 +20,12 @@ Lemma tie_generated_lspawn_report : forall (pre : list Z) (wstat : Z) (out : byt
   option_map (fun r => C_lreport.a_ss__out (snd r)) (C_lreport.run (S (length out)) pre wstat (zs out) 0 (Z.of_nat (length out)))
   = Some (pre ++ zs (LspawnReport.lspawn_report (negb (Z.land wstat 127 =? 0)) (Z.to_N (Z.shiftr wstat 8)) out)).
 Proof. exact Gen_report.gen_lreport_eq. Qed.
+(* fmtqfn() of today's fmtqfn.c, translated to Gallina by tools/c2gallina.py (gen/CGen.v, module C_fmtqfn): the file names
+   qmail-clean unlinks are the model's (directory, optional split subdirectory id mod auto_split, decimal id, NUL) *)
+From NQ Require Queue.Clean Tie.Gen_names.
+Lemma tie_generated_fmtqfn : forall (dir : bytes) (id split : N) (flag : bool) (buf : list Z),
+  bytes_ok dir -> ~ In 0%N dir -> Z.of_nat (length dir) < 2 ^ 31 -> (id < 18446744073709551616)%N -> (0 < split < 2147483648)%N ->
+  (length (Gen_names.qfn dir id split flag) < length buf)%nat ->
+  option_map (fun r => (fst r, C_fmtqfn.a_s (snd r))) (C_fmtqfn.run (22 + length dir) buf 0 (zs dir ++ [0]) 0 (Z.of_N id) (b2z flag) (Z.of_N split))
+  = Some (Z.of_nat (S (length (Gen_names.qfn dir id split flag))), zs (Gen_names.qfn dir id split flag) ++ [0] ++ skipn (S (length (Gen_names.qfn dir id split flag))) buf).
+Proof. exact Gen_names.gen_fmtqfn_eq. Qed.
